@@ -54,7 +54,22 @@ def gen_case(rng, tier, idx):
     if idx % 10 == 9:
         from ..runnerdrive import gen_runner_case
 
-        return gen_runner_case(rng, tier, profile="matching", clipped=(idx % 20 == 19))
+        c = gen_runner_case(rng, tier, profile="matching", clipped=(idx % 20 == 19))
+        if idx % 20 == 9:
+            # order mistake shocks in the first trading session: the arriving order is rewritten in place (side, kind,
+            # price, volume, lifetime) before the market accepts it - it must be ranked as what it has become
+            cfg = c["config"]
+            ss = [s_ for s_ in cfg["simulation"]["sessions"] if s_["withOrderPlacement"]]
+            spots = [m for m in cfg["simulation"]["markets"] if cfg[m]["class"] != "IndexMarket"]
+            for j, t in enumerate([0, 1, 2, 3, 5, 8]):
+                cfg["OMS%d" % j] = {"class": "OrderMistakeShock", "target": rng.choice(spots), "triggerTime": t,
+                                    "priceChangeRate": rng.choice([-0.02, 0.02, -0.005, 0.005]), "orderVolume": rng.choice([1, 2, 5]),
+                                    "orderTimeLength": rng.choice([5, 30, 200])}
+                ss[0].setdefault("events", []).append("OMS%d" % j)
+            for k, v in cfg.items():
+                if isinstance(v, dict) and "program" in v:
+                    v["program"]["p_act"] = 1.0
+        return c
     prof = {"max_levels": rng.choice([1, 1, 2, 3, 4])}
     if rng.random() < 0.5:
         prof["tick"] = rng.choice([1.0, 0.5, 10.0, 0.1])
